@@ -5,6 +5,7 @@ import (
 	"fmt"
 	"math/rand"
 	"strings"
+	"time"
 	"sync"
 
 	"verifharness/drv"
@@ -30,6 +31,7 @@ type c05Conv struct {
 	Plan     string     `json:"plan"`  // acc rej early mid1 mid4
 	Chunks   []c05Chunk `json:"chunks"`
 	Marker   bool       `json:"marker"` // a NOOP between chunks
+	Prior    int        `json:"prior"`  // octets of an earlier, completed chunked message on the same connection (0: none)
 }
 
 func c05Payload(kind string, n int, rng *rand.Rand) []byte {
@@ -176,6 +178,41 @@ func (cv *c05Conv) run(idx int, discipline string, rng *rand.Rand) (*c05Obs, ses
 	be.Unlock()
 	obs := &c05Obs{}
 	mark := be.NumCalls()
+	var head []rec.Call
+	if cv.Prior > 0 {
+		// the greeting, then a complete chunked message of its own: the
+		// conversation proper starts on a connection that has been used
+		out, _, err := cn.Step(steps[0].wire)
+		if err != nil {
+			return nil, cfg, err
+		}
+		rs, _, _ := wire.ParseAll(out)
+		obs.perStep = append(obs.perStep, rs)
+		obs.perCall = append(obs.perCall, be.Since(mark))
+		obs.replies = append(obs.replies, rs...)
+		head = be.Since(mark)
+		be.Lock()
+		be.DataPlans = append([]rec.DataPlan{{}}, be.DataPlans...)
+		if len(be.RcptErrs) > 0 {
+			be.RcptErrs = append([]error{nil}, be.RcptErrs...)
+		}
+		if len(be.MailErrs) > 0 {
+			be.MailErrs = append([]error{nil}, be.MailErrs...)
+		}
+		be.Unlock()
+		prs, _, err := cn.Replies([]byte(fmt.Sprintf("MAIL FROM:<p@x.test>\r\nRCPT TO:<q@x.test>\r\nBDAT %d LAST\r\n%s", cv.Prior, strings.Repeat("p", cv.Prior))))
+		if err != nil {
+			return nil, cfg, err
+		}
+		if len(prs) != 3 || prs[2].Code != 250 {
+			return nil, cfg, fmt.Errorf("the earlier message of %d octets was answered %v", cv.Prior, codes(prs))
+		}
+		for i := 0; i < 2000 && !be.Quiet(); i++ {
+			time.Sleep(50 * time.Microsecond)
+		}
+		steps = steps[1:]
+		mark = be.NumCalls()
+	}
 	waitData := func() {
 		// an empty first chunk spawns the delivery without waiting for it
 		if s := cn.State(); s != nil && s.Bdat {
@@ -264,9 +301,9 @@ func (cv *c05Conv) run(idx int, discipline string, rng *rand.Rand) (*c05Obs, ses
 		if syn != "" || len(rest) > 0 {
 			obs.synErr = syn + fmt.Sprintf(" rest=%q", rest)
 		}
-		obs.replies = rs
+		obs.replies = append(obs.replies, rs...)
 	}
-	obs.calls = be.Since(mark)
+	obs.calls = append(head, be.Since(mark)...)
 	return obs, cfg, nil
 }
 
@@ -303,6 +340,9 @@ func genC05(rng *rand.Rand, n int) []*c05Conv {
 		cv.Plan = []string{"acc", "acc", "rej", "early", "mid1", "mid4"}[rng.Intn(6)]
 		if rng.Intn(4) == 0 {
 			cv.MaxBytes = 10
+		}
+		if rng.Intn(3) == 0 {
+			cv.Prior = 1 + rng.Intn(9)
 		}
 		nch := 1 + rng.Intn(4)
 		for j := 0; j < nch; j++ {
